@@ -7,10 +7,12 @@ P: go2coq filtertotal regenerates, for every filter closure of filters.go, which
    truncate_total (C15's regenerated truncateText) and report_wellformed.
 K: the model's prediction "closure x capture shape crashes?" is evaluated inside coqc for every (constructor, shape) of the
    sweep and compared with what the real engine did.
-O: shape-coverage sweep: every filter constructor x 10 capture shapes (expression, `$*xs` of length 0..3, statement, statement
-   list of length 0..2, typed-nil / non-nil result list, parameter lists, type expression, name list) x RunContext settings,
-   plus At() every shape, plus a TruncateLen -3..70 render sweep, through the real engine under recover; every report is
-   checked for a non-nil node with valid in-file positions, a rule group, and an in-file suggestion range.
+O: shape-coverage sweep: every filter constructor x 16 capture shapes (expression, `$*xs` of length 0..3, statement, statement
+   list of length 0..2, typed-nil / non-nil result list, parameter lists, type expression, name list, and MatchComment rules:
+   a named group that captures / captures nothing / no group / a block comment / a trailing comment) x RunContext settings,
+   plus At() every shape, plus Do() functions asking for the text and type of the capture and of an unbound variable, plus a
+   TruncateLen -3..70 render sweep, through the real engine under recover; every report is checked for a non-nil node with
+   valid in-file positions, a rule group, and an in-file suggestion range.
 """
 import json
 import os
@@ -23,13 +25,17 @@ SHAPES = {
     "expr": ["ShNode"], "exprlist": ["ShList 0", "ShList 1", "ShList 2", "ShList 3"], "stmt": ["ShNode"],
     "stmtlist": ["ShList 0", "ShList 1", "ShList 2"], "results-nil": ["ShTypedNil"], "results": ["ShNode"],
     "params": ["ShList 2"], "params-unnamed": ["ShList 2"], "type": ["ShNode"], "names": ["ShList 1"], "sinkctx": ["ShNode"],
+    # comment rules: every capture (also a named group that matched nothing) is a non-nil *ast.Comment
+    "comment": ["ShNode"], "comment-empty": ["ShNode"], "comment-nogroup": ["ShNode"], "comment-block": ["ShNode"], "comment-trailing": ["ShNode"],
 }
+# (the two-variable shapes `two:*` -- one capture absent, the other present -- take part in the sweep only: the Coq model's
+#  closure_run speaks about one capture at a time)
 
 
 def run(c):
     thorough = c.tier == "thorough"
     c.go2coq_sources = ["filters.go", "filters_types.go", "filters_state.go"]   # private translator build: another family's generator cannot break this check
-    c.rule = ("one rule per (filter constructor instance, capture shape) with Report(`$x|$$`) and Suggest(`$x`), run under "
+    c.rule = ("one rule per (filter constructor instance | At() | Do() function, capture shape incl. comment-rule captures) with Report(`$x|$$`) and Suggest(`$x`), run under "
               "(TruncateLen, Go version, fresh/reused state) settings; evaluations count engine runs of one rule under one "
               "setting; a case is distinct by (instance, shape, setting) and non-trivial when the rule delivered reports")
     c.trusted += [
@@ -79,6 +85,13 @@ def run(c):
             c.count()
             inp = {"pattern": r.get("pattern"), "where": r.get("where"), "extra": r.get("extra", ""), "report": "$x|$$ ($$ only for the sinkctx shape)", "suggest": "$x",
                    "TruncateLen": r["trunc"], "GoVersion": r["gover"], "state_reused": r["reused"], "capture_shape": r["shape"]}
+            if r["shape"].startswith("two:"):
+                inp["report"], inp["suggest"] = "$x|$y|$$", "$y"
+            if r.get("do"):
+                inp["do"] = "Do(%s) instead of Report/Suggest; %s" % (r["do"], {
+                    "doText": "SetReport(ctx.Var(\"x\").Text()); SetSuggest(ctx.Var(\"x\").Text())",
+                    "doType": "SetReport(ctx.Var(\"x\").Type().String() + ctx.Var(\"x\").Type().Underlying().String())",
+                    "doOther": "SetSuggest(ctx.Var(\"nosuchvar\").Text() + ctx.Var(\"nosuchvar\").Type().String())"}.get(r["do"], ""))
             if r.get("reports"):
                 c.nontriv((r["inst"], r["shape"], r["trunc"], r["gover"], r["reused"]))
             if r.get("load_err"):
